@@ -1,3 +1,758 @@
 (* C03/C04 proofs about the fanout protocol transition system. *)
 From PV Require Import Dsh.Dispatch.
 Local Open Scope Z_scope.
+
+(* ---------------------------------------------------------------------------------------- *)
+(* lists of worker pcs *)
+
+Lemma cnt_upd p l i x o : nth_error l i = Some o ->
+  cnt p (upd l i x) = cnt p l - (if p o then 1 else 0) + (if p x then 1 else 0).
+Proof.
+  unfold cnt. revert i. induction l as [|h t IH]; intros [|j] H; cbn [nth_error upd filter] in *; try discriminate.
+  - inversion H; subst. destruct (p o), (p x); cbn [length]; lia.
+  - specialize (IH j H). destruct (p h); cbn [length]; lia.
+Qed.
+Lemma upd_length l i x : length (upd l i x) = length l.
+Proof. revert i; induction l; intros [|j]; simpl; auto. Qed.
+Lemma nth_upd_same l i x : (i < length l)%nat -> nth_error (upd l i x) i = Some x.
+Proof. revert i; induction l; intros [|j] H; simpl in *; try lia; auto. apply IHl; lia. Qed.
+Lemma nth_upd_other l i j x : i <> j -> nth_error (upd l i x) j = nth_error l j.
+Proof. revert i j; induction l; intros [|i] [|j] H; simpl; auto; try congruence. Qed.
+Lemma cnt_le p q l : (forall x, p x = true -> q x = true) -> cnt p l <= cnt q l.
+Proof. unfold cnt; intros H; induction l as [|h t IH]; cbn [filter length]; [lia|].
+  destruct (p h) eqn:E; [rewrite (H _ E)|destruct (q h)]; cbn [length]; lia. Qed.
+Lemma cnt_nonneg p l : 0 <= cnt p l. Proof. unfold cnt; lia. Qed.
+Lemma cnt_repeat_false p x k : p x = false -> cnt p (repeat x k) = 0.
+Proof. intros H. unfold cnt. induction k; cbn [repeat filter]; [reflexivity|]. rewrite H. exact IHk. Qed.
+Lemma cnt_repeat_true p x k : p x = true -> cnt p (repeat x k) = Z.of_nat k.
+Proof. intros H. unfold cnt. induction k; cbn [repeat filter]; [reflexivity|]. rewrite H. cbn [length]. lia. Qed.
+Lemma cnt_pos_ex p l : 0 < cnt p l -> exists i x, nth_error l i = Some x /\ p x = true.
+Proof.
+  unfold cnt. induction l as [|h t IH]; cbn [filter length]; [lia|].
+  destruct (p h) eqn:E.
+  - intros _. exists 0%nat, h. split; auto.
+  - intros H. destruct (IH H) as (i & x & Hi & Hx). exists (S i), x. split; auto.
+Qed.
+Lemma cnt_ex_pos p l i x : nth_error l i = Some x -> p x = true -> 0 < cnt p l.
+Proof.
+  unfold cnt. revert i. induction l as [|h t IH]; intros [|i] H Hp; cbn [nth_error filter] in *; try discriminate.
+  - inversion H; subst. rewrite Hp. cbn [length]. lia.
+  - specialize (IH i H Hp). destruct (p h); cbn [length]; lia.
+Qed.
+Lemma nth_upd_inv l k y j z : nth_error (upd l k y) j = Some z ->
+  (j = k /\ z = y) \/ (j <> k /\ nth_error l j = Some z).
+Proof.
+  intros H. destruct (Nat.eq_dec k j) as [<-|Hne].
+  - left. assert (k < length l)%nat.
+    { rewrite <- (upd_length l k y). apply nth_error_Some. congruence. }
+    rewrite nth_upd_same in H by auto. inversion H; auto.
+  - right. rewrite nth_upd_other in H by auto. auto.
+Qed.
+
+Lemma nth_upd l k y x i : nth_error l k = Some x ->
+  nth i (upd l k y) WNone = if Nat.eqb i k then y else nth i l WNone.
+Proof.
+  revert k i. induction l as [|h t IH]; intros [|k] [|i] H; cbn [nth_error upd nth Nat.eqb] in *; try discriminate; auto.
+Qed.
+
+(* weights of the worker pcs: the number of steps a slot can still cause *)
+Definition wgt (x : wpc) : Z :=
+  match x with WNone => 7 | WStart => 7 | WConn => 6 | WTorn => 5 | WHold => 4 | WSig => 1 | WExit => 0 end.
+Definition sumw (l : list wpc) : Z := fold_right (fun x a => wgt x + a) 0 l.
+Lemma sumw_upd l i x o : nth_error l i = Some o -> sumw (upd l i x) = sumw l - wgt o + wgt x.
+Proof.
+  revert i. induction l as [|h t IH]; intros [|j] H; cbn [nth_error upd sumw fold_right] in *; try discriminate.
+  - inversion H; subst. lia.
+  - specialize (IH j H). unfold sumw in IH. lia.
+Qed.
+Lemma sumw_nonneg l : 0 <= sumw l.
+Proof. induction l as [|h t IH]; cbn [sumw fold_right]; [lia|]. unfold sumw in IH. destruct h; cbn [wgt]; lia. Qed.
+Lemma sumw_repeat x k : sumw (repeat x k) = wgt x * Z.of_nat k.
+Proof. induction k; cbn [repeat sumw fold_right]; [lia|]. unfold sumw in IHk. lia. Qed.
+
+(* weights for draining the worker epilogues: steps left until the mutex is given back *)
+Definition wgt2 (x : wpc) : Z := match x with WTorn => 3 | WHold => 2 | WSig => 1 | _ => 0 end.
+Definition sume (l : list wpc) : Z := fold_right (fun x a => wgt2 x + a) 0 l.
+Lemma sume_upd l i x o : nth_error l i = Some o -> sume (upd l i x) = sume l - wgt2 o + wgt2 x.
+Proof.
+  revert i. induction l as [|h t IH]; intros [|j] H; cbn [nth_error upd sume fold_right] in *; try discriminate.
+  - inversion H; subst. lia.
+  - specialize (IH j H). unfold sume in IH. lia.
+Qed.
+Lemma wgt2_nonneg x : 0 <= wgt2 x. Proof. destruct x; cbn; lia. Qed.
+Lemma sume_nonneg l : 0 <= sume l.
+Proof. induction l as [|h t IH]; cbn [sume fold_right]; [lia|]. unfold sume in IH. pose proof (wgt2_nonneg h). lia. Qed.
+Lemma sume_ge l i x : nth_error l i = Some x -> wgt2 x <= sume l.
+Proof.
+  revert i. induction l as [|h t IH]; intros [|j] H; cbn [nth_error sume fold_right] in *; try discriminate.
+  - inversion H; subst. pose proof (sume_nonneg t). unfold sume in *. lia.
+  - specialize (IH j H). pose proof (wgt2_nonneg h). unfold sume in *. lia.
+Qed.
+Lemma sume_pos_ex l : 0 < sume l -> exists i x, nth_error l i = Some x /\ 0 < wgt2 x.
+Proof.
+  induction l as [|h t IH]; cbn [sume fold_right]; [lia|]. intros H.
+  destruct (Z_lt_le_dec 0 (wgt2 h)).
+  - exists 0%nat, h. split; auto.
+  - destruct IH as (i & x & Hi & Hx); [unfold sume; lia|]. exists (S i), x. split; auto.
+Qed.
+Lemma sume_zero_live l : sume l = 0 ->
+  cnt (fun x => match x with WStart | WConn | WTorn | WHold => true | _ => false end) l =
+  cnt (fun x => wpc_eqb x WStart || wpc_eqb x WConn) l.
+Proof.
+  unfold cnt. induction l as [|h t IH]; cbn [sume fold_right filter]; [reflexivity|]. intros H.
+  pose proof (sume_nonneg t). pose proof (wgt2_nonneg h). unfold sume in *.
+  assert (Ht : fold_right (fun x a => wgt2 x + a) 0 t = 0) by lia. specialize (IH Ht).
+  destruct h; cbn [wgt2 wpc_eqb orb] in *; cbn [length]; lia.
+Qed.
+
+(* counting events (the same definitions as in Props/Properties_C03.v) *)
+Definition nev (p : ev -> bool) (es : list ev) : nat := length (filter p es).
+Definition ev_create (i : nat) (e : ev) : bool := match e with ECreate j => Nat.eqb i j | _ => false end.
+Definition ev_conn (i : nat) (e : ev) : bool := match e with EConn j => Nat.eqb i j | _ => false end.
+Definition ev_destroy (i : nat) (e : ev) : bool := match e with EDestroy j => Nat.eqb i j | _ => false end.
+Lemma nev_snoc p es e : nev p (es ++ [e]) = (nev p es + (if p e then 1 else 0))%nat.
+Proof. unfold nev. rewrite filter_app, app_length. cbn [filter]. destruct (p e); reflexivity. Qed.
+
+(* ---------------------------------------------------------------------------------------- *)
+(* the step function as a relation (recheck = true) *)
+
+Section P.
+Variable n : nat.
+Variable f : Z.
+
+Inductive Step (s : st) : ev -> st -> Prop :=
+| SLockD1 : mtx s = Free -> d s = DLock -> Step s ELockD (mkst (idx s) (tc s) ByD DCheck (w s))
+| SLockD2 : mtx s = Free -> d s = FLock -> Step s ELockD (mkst (idx s) (tc s) ByD FCheck (w s))
+| SWait1 : d s = DCheck -> f <= tc s -> Step s EWaitD (mkst (idx s) (tc s) Free DWait (w s))
+| SWait2 : d s = FCheck -> 0 < tc s -> Step s EWaitD (mkst (idx s) (tc s) Free FWait (w s))
+| SWoken1 : mtx s = Free -> d s = DWoken -> Step s EWokenD (mkst (idx s) (tc s) ByD DCheck (w s))
+| SWoken2 : mtx s = Free -> d s = FWoken -> Step s EWokenD (mkst (idx s) (tc s) ByD FCheck (w s))
+| SCreate : d s = DCheck -> tc s < f -> (idx s < n)%nat ->
+    Step s (ECreate (idx s)) (mkst (idx s) (tc s + 1) (mtx s) DUnlock (upd (w s) (idx s) WStart))
+| SCreateGo : d s = DGo -> (idx s < n)%nat ->
+    Step s (ECreate (idx s)) (mkst (idx s) (tc s + 1) (mtx s) DUnlock (upd (w s) (idx s) WStart))
+| SUnlock1 : d s = DUnlock ->
+    Step s EUnlockD (mkst (S (idx s)) (tc s) Free (if Nat.ltb (S (idx s)) n then DLock else FLock) (w s))
+| SUnlock2 : d s = FCheck -> tc s <= 0 -> Step s EUnlockD (mkst (idx s) (tc s) Free DDone (w s))
+| SConn i : nth_error (w s) i = Some WStart ->
+    Step s (EConn i) (mkst (idx s) (tc s) (mtx s) (d s) (upd (w s) i WConn))
+| SDestroy i : nth_error (w s) i = Some WConn ->
+    Step s (EDestroy i) (mkst (idx s) (tc s) (mtx s) (d s) (upd (w s) i WTorn))
+| SLockW i : nth_error (w s) i = Some WTorn -> mtx s = Free ->
+    Step s (ELockW i) (mkst (idx s) (tc s) (ByW i) (d s) (upd (w s) i WHold))
+| SSignal i : nth_error (w s) i = Some WHold ->
+    Step s (ESignal i) (mkst (idx s) (tc s - 1) (mtx s) (wake (d s)) (upd (w s) i WSig))
+| SUnlockW i : nth_error (w s) i = Some WSig ->
+    Step s (EUnlockW i) (mkst (idx s) (tc s) Free (d s) (upd (w s) i WExit))
+| SSpur1 : d s = DWait -> Step s ESpur (mkst (idx s) (tc s) (mtx s) DWoken (w s))
+| SSpur2 : d s = FWait -> Step s ESpur (mkst (idx s) (tc s) (mtx s) FWoken (w s))
+| SExit : d s = DDone -> Step s EExit (mkst (idx s) (tc s) (mtx s) DExited (w s)).
+
+Lemma step_Step s e s' : step n f true s e = Some s' -> Step s e s'.
+Proof.
+  intros H. destruct e; cbn [step] in H.
+  - destruct (mtx s) eqn:Em; try discriminate. destruct (d s) eqn:Ed; try discriminate;
+    inversion H; subst; constructor; auto.
+  - destruct (d s) eqn:Ed; try discriminate.
+    + destruct (f <=? tc s) eqn:E; try discriminate. inversion H; subst. apply SWait1; auto. apply Z.leb_le; auto.
+    + destruct (0 <? tc s) eqn:E; try discriminate. inversion H; subst. apply SWait2; auto. apply Z.ltb_lt; auto.
+  - destruct (mtx s) eqn:Em; try discriminate. destruct (d s) eqn:Ed; try discriminate;
+    inversion H; subst; constructor; auto.
+  - destruct ((match d s with DCheck => negb (f <=? tc s) | DGo => true | _ => false end) && Nat.eqb i (idx s) && Nat.ltb i n) eqn:E;
+      try discriminate.
+    apply andb_prop in E. destruct E as [E E3]. apply andb_prop in E. destruct E as [E1 E2].
+    apply Nat.eqb_eq in E2. apply Nat.ltb_lt in E3. subst i. inversion H; subst.
+    destruct (d s) eqn:Ed; try discriminate.
+    + apply SCreate; auto. apply negb_true_iff in E1. apply Z.leb_gt in E1. auto.
+    + apply SCreateGo; auto.
+  - destruct (d s) eqn:Ed; try discriminate.
+    + inversion H; subst. apply SUnlock1; auto.
+    + destruct (0 <? tc s) eqn:E; try discriminate. inversion H; subst. apply SUnlock2; auto. apply Z.ltb_ge; auto.
+  - destruct (nth_error (w s) i) as [[]|] eqn:En; try discriminate. inversion H; subst. constructor; auto.
+  - destruct (nth_error (w s) i) as [[]|] eqn:En; try discriminate. inversion H; subst. constructor; auto.
+  - destruct (nth_error (w s) i) as [[]|] eqn:En; try discriminate. destruct (mtx s) eqn:Em; try discriminate.
+    inversion H; subst. constructor; auto.
+  - destruct (nth_error (w s) i) as [[]|] eqn:En; try discriminate. inversion H; subst. constructor; auto.
+  - destruct (nth_error (w s) i) as [[]|] eqn:En; try discriminate. inversion H; subst. constructor; auto.
+  - destruct (d s) eqn:Ed; try discriminate; inversion H; subst; constructor; auto.
+  - destruct (d s) eqn:Ed; try discriminate; inversion H; subst; constructor; auto.
+Qed.
+
+Lemma Step_step s e s' : Step s e s' -> step n f true s e = Some s'.
+Proof.
+  intros H. destruct H; cbn [step];
+    repeat match goal with H : _ = _ |- _ => rewrite H end; try reflexivity.
+  - apply Z.leb_le in H0. rewrite H0. reflexivity.
+  - apply Z.ltb_lt in H0. rewrite H0. reflexivity.
+  - apply Z.leb_gt in H0. rewrite H0. rewrite Nat.eqb_refl. apply Nat.ltb_lt in H1. rewrite H1. reflexivity.
+  - rewrite Nat.eqb_refl. apply Nat.ltb_lt in H0. rewrite H0. reflexivity.
+  - apply Z.ltb_ge in H0. rewrite H0. reflexivity.
+Qed.
+
+
+(* ---------------------------------------------------------------------------------------- *)
+(* the state invariant *)
+
+Definition dholds (x : dpc) : bool := match x with DCheck | DGo | DUnlock | FCheck => true | _ => false end.
+Definition wholds (x : wpc) : bool := match x with WHold | WSig => true | _ => false end.
+Definition inloop (x : dpc) : bool :=
+  match x with DLock | DCheck | DWait | DWoken | DGo | DUnlock => true | _ => false end.
+Definition live (x : wpc) : bool := match x with WStart | WConn | WTorn | WHold => true | _ => false end.
+Definition bump (x : dpc) : nat := match x with DUnlock => 1 | _ => 0 end.
+
+Record Inv (s : st) : Prop := {
+  I_len : length (w s) = n;
+  I_tc : tc s = cnt live (w s);
+  I_f : tc s <= f;
+  I_go : d s <> DGo;
+  I_md : mtx s = ByD <-> dholds (d s) = true;
+  I_mw : forall i, mtx s = ByW i <-> exists x, nth_error (w s) i = Some x /\ wholds x = true;
+  I_hi : forall j, (idx s + bump (d s) <= j)%nat -> (j < n)%nat -> nth_error (w s) j = Some WNone;
+  I_lo : forall j, (j < idx s + bump (d s))%nat -> nth_error (w s) j <> Some WNone;
+  I_lt : inloop (d s) = true -> (idx s < n)%nat;
+  I_ge : inloop (d s) = false -> idx s = n;
+  I_wait : d s = DWait -> f <= tc s;
+  I_fwait : d s = FWait -> 0 < tc s;
+  I_done : d s = DDone \/ d s = DExited -> tc s = 0 /\ mtx s = Free
+}.
+
+Lemma init_inv : (0 < n)%nat -> 1 <= f -> Inv (init n).
+Proof.
+  intros Hn Hf. constructor; cbn [init idx tc mtx d w bump inloop dholds].
+  - apply repeat_length.
+  - rewrite cnt_repeat_false; reflexivity.
+  - lia.
+  - discriminate.
+  - split; discriminate.
+  - intros i; split; [discriminate|]. intros (x & Hx & Hw).
+    apply nth_error_In, repeat_spec in Hx; subst; discriminate.
+  - intros j _ Hj. rewrite nth_error_repeat; auto.
+  - intros j Hj. lia.
+  - auto.
+  - discriminate.
+  - discriminate.
+  - discriminate.
+  - intros [H|H]; discriminate.
+Qed.
+
+Lemma hi_upd l i x y k : nth_error l i = Some x -> x <> WNone ->
+  (forall j, (k <= j)%nat -> (j < n)%nat -> nth_error l j = Some WNone) ->
+  forall j, (k <= j)%nat -> (j < n)%nat -> nth_error (upd l i y) j = Some WNone.
+Proof.
+  intros Hi Hx H j Hj Hjn. destruct (Nat.eq_dec i j) as [<-|Hne].
+  - rewrite (H i Hj Hjn) in Hi. congruence.
+  - rewrite nth_upd_other by auto. auto.
+Qed.
+Lemma lo_upd l i y k : y <> WNone ->
+  (forall j, (j < k)%nat -> nth_error l j <> Some WNone) ->
+  forall j, (j < k)%nat -> nth_error (upd l i y) j <> Some WNone.
+Proof.
+  intros Hy H j Hj Hc. apply nth_upd_inv in Hc. destruct Hc as [[_ Hc]|[_ Hc]]; [congruence|].
+  exact (H j Hj Hc).
+Qed.
+Lemma mw_upd l i x y m : nth_error l i = Some x -> wholds x = wholds y ->
+  (forall j, m = ByW j <-> exists z, nth_error l j = Some z /\ wholds z = true) ->
+  forall j, m = ByW j <-> exists z, nth_error (upd l i y) j = Some z /\ wholds z = true.
+Proof.
+  intros Hi Hxy H j. rewrite H. assert (Hil : (i < length l)%nat) by (apply nth_error_Some; congruence).
+  destruct (Nat.eq_dec i j) as [<-|Hne].
+  - rewrite nth_upd_same by auto. rewrite Hi. split; intros (z & Hz & Hw); inversion Hz; subst; eexists; split; eauto; congruence.
+  - rewrite nth_upd_other by auto. tauto.
+Qed.
+Lemma mw_same l (m m' : owner) : (forall j, m <> ByW j) -> (forall j, m' <> ByW j) ->
+  (forall j, m = ByW j <-> exists z, nth_error l j = Some z /\ wholds z = true) ->
+  forall j, m' = ByW j <-> exists z, nth_error l j = Some z /\ wholds z = true.
+Proof.
+  intros Hm Hm' H j. rewrite <- H. split; intros Hx; exfalso; [eapply Hm'|eapply Hm]; eauto.
+Qed.
+
+Lemma wake_dholds x : dholds (wake x) = dholds x. Proof. destruct x; reflexivity. Qed.
+Lemma wake_inloop x : inloop (wake x) = inloop x. Proof. destruct x; reflexivity. Qed.
+Lemma wake_bump x : bump (wake x) = bump x. Proof. destruct x; reflexivity. Qed.
+
+Lemma Step_inv s e s' : 1 <= f -> Inv s -> Step s e s' -> Inv s'.
+Proof.
+  intros Hf [Hlen Htc Hfb Hgo Hmd Hmw Hhi Hlo Hlt Hge Hwt Hfw Hdn] HS.
+  pose proof (cnt_nonneg live (w s)) as Hnn.
+  destruct HS; constructor; cbn [idx tc mtx d w];
+    try match goal with H : d s = _ |- _ => rewrite H in * end;
+    cbn [bump inloop dholds wake] in *;
+    try (assert (Em : mtx s = ByD) by (apply Hmd; reflexivity));
+    try rewrite wake_bump; try rewrite wake_dholds; try rewrite wake_inloop;
+    try (exfalso; apply Hgo; reflexivity);
+    auto;
+    try (rewrite upd_length; assumption);
+    try discriminate;
+    try (split; intros; (discriminate || reflexivity)); try lia;
+    try (intros [?|?]; discriminate); try (intros; discriminate);
+    (* mutex / worker agreement, worker list unchanged *)
+    try (match goal with |- forall i, ?m = ByW i <-> _ =>
+           apply (mw_same _ (mtx s) m);
+           [ match goal with E : mtx s = _ |- _ => rewrite E end; discriminate | discriminate | exact Hmw ] end);
+    (* worker moves that do not change who holds the mutex *)
+    try (eapply mw_upd; [eassumption | reflexivity | exact Hmw]);
+    try (eapply hi_upd; [eassumption | discriminate | assumption]);
+    try (apply lo_upd; [discriminate | assumption]);
+    try (match goal with H : nth_error (w s) _ = Some _ |- _ = cnt live _ =>
+           rewrite (cnt_upd _ _ _ _ _ H); cbn [live]; lia end).
+  - (* create: threadcount *)
+    assert (Hn : nth_error (w s) (idx s) = Some WNone) by (apply Hhi; lia).
+    rewrite (cnt_upd _ _ _ _ _ Hn); cbn [live]; lia.
+  - assert (Hn : nth_error (w s) (idx s) = Some WNone) by (apply Hhi; lia).
+    eapply mw_upd; [exact Hn | reflexivity | exact Hmw].
+  - intros j Hj Hjn. rewrite nth_upd_other by lia. apply Hhi; lia.
+  - intros j Hj Hc. apply nth_upd_inv in Hc. destruct Hc as [[_ Hc]|[Hne Hc]]; [discriminate|].
+    apply (Hlo j); [lia|auto].
+  - (* unlock after create *) destruct (S (idx s) <? n)%nat; discriminate.
+  - destruct (S (idx s) <? n)%nat; split; discriminate.
+  - intros j Hj Hjn. apply Hhi; auto. destruct (S (idx s) <? n)%nat; cbn [bump] in Hj; lia.
+  - intros j Hj. apply Hlo. destruct (S (idx s) <? n)%nat; cbn [bump] in Hj; lia.
+  - destruct (S (idx s) <? n)%nat eqn:E; cbn [inloop]; [|discriminate]. intros _. apply Nat.ltb_lt; auto.
+  - destruct (S (idx s) <? n)%nat eqn:E; cbn [inloop]; [discriminate|]. intros _. apply Nat.ltb_ge in E. lia.
+  - destruct (S (idx s) <? n)%nat; discriminate.
+  - destruct (S (idx s) <? n)%nat; discriminate.
+  - destruct (S (idx s) <? n)%nat; intros [?|?]; discriminate.
+  - (* final unlock *) intros _. split; [lia|reflexivity].
+  - (* worker lock *) split; [discriminate|]. intros Hd. apply Hmd in Hd. congruence.
+  - intros j. assert (Hil : (i < length (w s))%nat) by (apply nth_error_Some; congruence).
+    destruct (Nat.eq_dec i j) as [<-|Hne].
+    + rewrite nth_upd_same by auto. split; [|reflexivity]. intros _. exists WHold. auto.
+    + rewrite nth_upd_other by auto. split; [intros Hx; inversion Hx; congruence|].
+      intros Hx. apply Hmw in Hx. congruence.
+  - intros Hd. pose proof (cnt_ex_pos live _ _ _ H eq_refl). destruct (Hdn Hd). lia.
+  - (* signal *) destruct (d s); cbn [wake]; congruence.
+  - destruct (d s); cbn [wake]; discriminate.
+  - destruct (d s); cbn [wake]; discriminate.
+  - intros Hd. assert (Hd' : d s = DDone \/ d s = DExited).
+    { destruct (d s); cbn [wake] in Hd; destruct Hd; try discriminate; auto. }
+    destruct (Hdn Hd') as [_ Hm]. assert (mtx s = ByW i) by (apply Hmw; exists WHold; auto). congruence.
+  - (* worker unlock *) assert (Hm : mtx s = ByW i) by (apply Hmw; exists WSig; auto).
+    split; [discriminate|]. intros Hd. apply Hmd in Hd. congruence.
+  - assert (Hm : mtx s = ByW i) by (apply Hmw; exists WSig; auto).
+    intros j. split; [discriminate|]. intros (x & Hx & Hw). exfalso.
+    apply nth_upd_inv in Hx. destruct Hx as [[_ Hx]|[Hne Hx]]; [subst; discriminate|].
+    assert (mtx s = ByW j) by (apply Hmw; exists x; auto). congruence.
+  - intros Hd. destruct (Hdn Hd). auto.
+Qed.
+
+
+
+(* ---------------------------------------------------------------------------------------- *)
+(* runs *)
+
+Lemma run_app (s : st) a b :
+  run n f true s (a ++ b) = match run n f true s a with Some s' => run n f true s' b | None => None end.
+Proof.
+  revert s. induction a as [|e a IH]; intros s; cbn [app run]; [reflexivity|].
+  destruct (step n f true s e); auto.
+Qed.
+Lemma run_snoc (s : st) es e :
+  run n f true s (es ++ [e]) = match run n f true s es with Some s' => step n f true s' e | None => None end.
+Proof.
+  rewrite run_app. destruct (run n f true s es); auto. cbn [run]. destruct (step n f true s0 e); auto.
+Qed.
+
+(* induction over the runs from a state: the property may talk about the events so far *)
+Lemma run_ind (P : list ev -> st -> Prop) s0 :
+  P [] s0 ->
+  (forall es s e s', run n f true s0 es = Some s -> P es s -> Step s e s' -> P (es ++ [e]) s') ->
+  forall es s, run n f true s0 es = Some s -> P es s.
+Proof.
+  intros H0 HS es. induction es as [|e es IH] using rev_ind; intros s Hr.
+  - cbn [run] in Hr. inversion Hr; subst; auto.
+  - rewrite run_snoc in Hr. destruct (run n f true s0 es) as [s1|] eqn:E; [|discriminate].
+    eapply HS; eauto. apply step_Step; auto.
+Qed.
+
+Lemma reach_inv es s : (0 < n)%nat -> 1 <= f -> run n f true (init n) es = Some s -> Inv s.
+Proof.
+  intros Hn Hf. revert es s. apply run_ind.
+  - apply init_inv; auto.
+  - intros es s e s' _ HI HS. eapply Step_inv; eauto.
+Qed.
+
+(* ---------------------------------------------------------------------------------------- *)
+(* C04: the bound *)
+
+Lemma inv_bound s : Inv s -> inflight s <= started s /\ started s <= f /\ 0 <= tc s <= f.
+Proof.
+  intros HI. destruct HI as [_ Htc Hfb _ _ _ _ _ _ _ _ _ _].
+  pose proof (cnt_nonneg live (w s)).
+  assert (inflight s <= started s).
+  { apply cnt_le. intros [] Hx; cbn in *; congruence. }
+  assert (started s <= cnt live (w s)).
+  { apply cnt_le. intros [] Hx; cbn in *; congruence. }
+  lia.
+Qed.
+
+Lemma fanout_bound_ es s : (0 < n)%nat -> 1 <= f ->
+  run n f true (init n) es = Some s -> inflight s <= started s /\ started s <= f /\ 0 <= tc s <= f.
+Proof. intros Hn Hf Hr. apply inv_bound. eapply reach_inv; eauto. Qed.
+
+(* ---------------------------------------------------------------------------------------- *)
+(* C03: deadlock freedom *)
+
+Lemma holder_can_move s i x : nth_error (w s) i = Some x -> wholds x = true ->
+  exists e s', e <> ESpur /\ step n f true s e = Some s'.
+Proof.
+  intros Hx Hw. destruct x; try discriminate.
+  - exists (ESignal i). eexists. split; [discriminate|]. apply Step_step. constructor; auto.
+  - exists (EUnlockW i). eexists. split; [discriminate|]. apply Step_step. constructor; auto.
+Qed.
+
+Lemma live_can_move s : Inv s -> mtx s = Free -> 0 < tc s ->
+  exists e s', e <> ESpur /\ step n f true s e = Some s'.
+Proof.
+  intros HI Hm Ht. rewrite (I_tc _ HI) in Ht. apply cnt_pos_ex in Ht. destruct Ht as (i & x & Hi & Hx).
+  destruct x; try discriminate.
+  - exists (EConn i). eexists. split; [discriminate|]. apply Step_step. constructor; auto.
+  - exists (EDestroy i). eexists. split; [discriminate|]. apply Step_step. constructor; auto.
+  - exists (ELockW i). eexists. split; [discriminate|]. apply Step_step. constructor; auto.
+  - assert (mtx s = ByW i) by (apply (I_mw _ HI); exists WHold; auto). congruence.
+Qed.
+
+Lemma inv_can_move s : 1 <= f -> Inv s -> d s <> DExited ->
+  exists e s', e <> ESpur /\ step n f true s e = Some s'.
+Proof.
+  intros Hf HI Hx. destruct (mtx s) eqn:Em.
+  - (* free *)
+    assert (Hnh : dholds (d s) = false).
+    { destruct (dholds (d s)) eqn:E; auto. apply (I_md _ HI) in E. congruence. }
+    destruct (d s) eqn:Ed; try discriminate.
+    + exists ELockD. eexists. split; [discriminate|]. apply Step_step. apply SLockD1; auto.
+    + apply live_can_move; auto. pose proof (I_wait _ HI Ed). lia.
+    + exists EWokenD. eexists. split; [discriminate|]. apply Step_step. apply SWoken1; auto.
+    + exists ELockD. eexists. split; [discriminate|]. apply Step_step. apply SLockD2; auto.
+    + apply live_can_move; auto. apply (I_fwait _ HI Ed).
+    + exists EWokenD. eexists. split; [discriminate|]. apply Step_step. apply SWoken2; auto.
+    + exists EExit. eexists. split; [discriminate|]. apply Step_step. apply SExit; auto.
+    + congruence.
+  - (* held by the dispatcher *)
+    assert (Hh : dholds (d s) = true) by (apply (I_md _ HI); auto).
+    destruct (d s) eqn:Ed; try discriminate.
+    + destruct (Z_le_gt_dec f (tc s)).
+      * exists EWaitD. eexists. split; [discriminate|]. apply Step_step. apply SWait1; auto.
+      * exists (ECreate (idx s)). eexists. split; [discriminate|]. apply Step_step. apply SCreate; auto; try lia.
+        apply (I_lt _ HI). rewrite Ed. reflexivity.
+    + exfalso. apply (I_go _ HI); auto.
+    + exists EUnlockD. eexists. split; [discriminate|]. apply Step_step. apply SUnlock1; auto.
+    + destruct (Z_lt_le_dec 0 (tc s)).
+      * exists EWaitD. eexists. split; [discriminate|]. apply Step_step. apply SWait2; auto.
+      * exists EUnlockD. eexists. split; [discriminate|]. apply Step_step. apply SUnlock2; auto.
+  - (* held by a worker *)
+    destruct (proj1 (I_mw _ HI i) Em) as (x & Hi & Hw). eapply holder_can_move; eauto.
+Qed.
+
+Lemma deadlock_free_ es s : (0 < n)%nat -> 1 <= f ->
+  run n f true (init n) es = Some s -> d s <> DExited ->
+  exists e s', e <> ESpur /\ step n f true s e = Some s'.
+Proof. intros Hn Hf Hr. apply inv_can_move; auto. eapply reach_inv; eauto. Qed.
+
+
+(* ---------------------------------------------------------------------------------------- *)
+(* C03: what has happened so far, read off the worker slots *)
+
+Definition c_create (x : wpc) : nat := match x with WNone => 0 | _ => 1 end.
+Definition c_conn (x : wpc) : nat := match x with WNone | WStart => 0 | _ => 1 end.
+Definition c_destroy (x : wpc) : nat := match x with WNone | WStart | WConn => 0 | _ => 1 end.
+
+Record HInv (es : list ev) (s : st) : Prop := {
+  H_cr : forall i, nev (ev_create i) es = c_create (nth i (w s) WNone);
+  H_co : forall i, nev (ev_conn i) es = c_conn (nth i (w s) WNone);
+  H_de : forall i, nev (ev_destroy i) es = c_destroy (nth i (w s) WNone);
+  H_ex : In EExit es -> d s = DExited
+}.
+
+Lemma init_hinv : HInv [] (init n).
+Proof.
+  assert (H : forall i, nth i (repeat WNone n) WNone = WNone).
+  { intros i. destruct (nth_in_or_default i (repeat WNone n) WNone) as [Hi|Hi]; auto.
+    apply repeat_spec in Hi. auto. }
+  constructor; cbn [init w d]; try (intros i; rewrite H; reflexivity). intros [].
+Qed.
+
+Lemma Step_hinv es s e s' : Inv s -> HInv es s -> Step s e s' -> HInv (es ++ [e]) s'.
+Proof.
+  intros HI [Hcr Hco Hde Hex] HS.
+  assert (Hn : d s = DCheck -> nth_error (w s) (idx s) = Some WNone).
+  { intros Ed. apply (I_hi _ HI). rewrite Ed; cbn [bump]; lia. apply (I_lt _ HI). rewrite Ed; reflexivity. }
+  assert (Hex' : In EExit (es ++ [e]) -> d s' = DExited).
+  { intros Hin. apply in_app_or in Hin. destruct Hin as [Hin|[Hin|[]]].
+    - specialize (Hex Hin). destruct HS; cbn [d]; try congruence. rewrite Hex. reflexivity.
+    - subst e. inversion HS; subst. reflexivity. }
+  destruct HS; constructor; try exact Hex'; clear Hex'; cbn [idx tc mtx d w]; intros k; rewrite nev_snoc;
+    cbn [ev_create ev_conn ev_destroy];
+    try (rewrite Nat.add_0_r; auto; fail);
+    try (exfalso; apply (I_go _ HI); assumption);
+    try specialize (Hn ltac:(assumption));
+    match goal with H : nth_error (w s) ?i = Some ?x |- _ =>
+      rewrite (nth_upd _ _ _ _ _ H); pose proof (nth_error_nth _ _ WNone H) as Hx;
+      destruct (Nat.eqb k i) eqn:E;
+      [ apply Nat.eqb_eq in E; subst k; first [rewrite Hcr | rewrite Hco | rewrite Hde]; rewrite Hx; reflexivity
+      | rewrite Nat.add_0_r; auto ]
+    end.
+Qed.
+
+Lemma reach_hinv es s : (0 < n)%nat -> 1 <= f -> run n f true (init n) es = Some s -> HInv es s.
+Proof.
+  intros Hn Hf. revert es s. apply run_ind.
+  - apply init_hinv.
+  - intros es s e s' Hr HH HS. eapply Step_hinv; eauto. eapply reach_inv; eauto.
+Qed.
+
+Lemma started_at_most_once_ es s i : (0 < n)%nat -> 1 <= f ->
+  run n f true (init n) es = Some s ->
+  (nev (ev_create i) es <= 1)%nat /\ (nev (ev_conn i) es <= nev (ev_create i) es)%nat /\
+  (nev (ev_destroy i) es <= nev (ev_conn i) es)%nat /\ (nev (ev_create i) es = 1%nat -> (i < n)%nat).
+Proof.
+  intros Hn Hf Hr. destruct (reach_hinv _ _ Hn Hf Hr) as [Hcr Hco Hde _].
+  pose proof (reach_inv _ _ Hn Hf Hr) as HI.
+  rewrite Hcr, Hco, Hde. repeat split; try (destruct (nth i (w s) WNone); cbn; lia).
+  intros H1. destruct (Nat.lt_ge_cases i n) as [|Hge]; auto.
+  rewrite nth_overflow in H1 by (rewrite (I_len _ HI); auto). discriminate.
+Qed.
+
+(* when the dispatcher is past its last unlock every slot has run to completion *)
+Lemma done_all_exited s i : Inv s -> d s = DDone \/ d s = DExited -> (i < n)%nat ->
+  nth_error (w s) i = Some WExit.
+Proof.
+  intros HI Hd Hi. destruct (I_done _ HI Hd) as [Ht Hm].
+  assert (Hidx : idx s = n) by (apply (I_ge _ HI); destruct Hd as [-> | ->]; reflexivity).
+  destruct (nth_error (w s) i) as [x|] eqn:En.
+  - assert (Hl : live x = false).
+    { destruct (live x) eqn:E; auto. pose proof (cnt_ex_pos live _ _ _ En E). rewrite <- (I_tc _ HI) in H. lia. }
+    assert (Hh : wholds x = false).
+    { destruct (wholds x) eqn:E; auto. assert (mtx s = ByW i) by (apply (I_mw _ HI); exists x; auto). congruence. }
+    assert (Hnn : x <> WNone).
+    { intros ->. apply (I_lo _ HI i); auto. lia. }
+    destruct x; try discriminate; congruence.
+  - apply nth_error_None in En. rewrite (I_len _ HI) in En. lia.
+Qed.
+
+Lemma exit_after_all_ es s : (0 < n)%nat -> 1 <= f ->
+  run n f true (init n) es = Some s -> In EExit es ->
+  tc s = 0 /\ forall i, (i < n)%nat ->
+    nth_error (w s) i = Some WExit /\ nev (ev_create i) es = 1%nat /\
+    nev (ev_conn i) es = 1%nat /\ nev (ev_destroy i) es = 1%nat.
+Proof.
+  intros Hn Hf Hr Hin. destruct (reach_hinv _ _ Hn Hf Hr) as [Hcr Hco Hde Hex].
+  pose proof (reach_inv _ _ Hn Hf Hr) as HI. specialize (Hex Hin).
+  split; [apply (I_done _ HI); auto|].
+  intros i Hi. assert (He : nth_error (w s) i = Some WExit) by (apply done_all_exited; auto).
+  split; auto. rewrite Hcr, Hco, Hde. rewrite (nth_error_nth _ _ WNone He). auto.
+Qed.
+
+
+(* ---------------------------------------------------------------------------------------- *)
+(* C03: termination - a potential that every step but a spurious wake-up decreases *)
+
+Definition dpot (x : dpc) (k : nat) : Z :=
+  let r := Z.of_nat n - Z.of_nat k in
+  match x with
+  | DLock => 3 * r + 3 | DCheck => 3 * r + 2 | DGo => 3 * r + 2 | DUnlock => 3 * r + 1
+  | DWait => 3 * r + 1 | DWoken => 3 * r + 3
+  | FLock => 3 | FCheck => 2 | FWait => 1 | FWoken => 3 | DDone => 1 | DExited => 0
+  end.
+Definition pot (s : st) : Z := dpot (d s) (idx s) + sumw (w s).
+
+Lemma Step_pot s e s' : Inv s -> Step s e s' ->
+  pot s' + 1 <= pot s + (match e with ESpur => 3 | _ => 0 end).
+Proof.
+  intros HI HS. unfold pot.
+  assert (Hn : d s = DCheck -> nth_error (w s) (idx s) = Some WNone).
+  { intros Ed. apply (I_hi _ HI). rewrite Ed; cbn [bump]; lia. apply (I_lt _ HI). rewrite Ed; reflexivity. }
+  pose proof (I_lt _ HI) as Hlt.
+  destruct HS; cbn [idx tc mtx d w];
+    try (exfalso; apply (I_go _ HI); assumption);
+    try specialize (Hn ltac:(assumption));
+    try match goal with H : nth_error (w s) _ = Some _ |- _ => rewrite (sumw_upd _ _ _ _ H); cbn [wgt] end;
+    try match goal with H : d s = _ |- _ => rewrite H in * end;
+    cbn [dpot inloop] in *; try lia.
+  - (* unlock after create *) specialize (Hlt eq_refl).
+    destruct (S (idx s) <? n)%nat; cbn [dpot]; lia.
+  - (* signal *) destruct (d s); cbn [wake dpot]; lia.
+Qed.
+
+Lemma pot_nonneg s : Inv s -> 0 <= pot s.
+Proof.
+  intros HI. unfold pot. pose proof (sumw_nonneg (w s)).
+  pose proof (I_lt _ HI) as Hlt. pose proof (I_ge _ HI) as Hge.
+  destruct (d s); cbn [dpot inloop] in *; try lia; specialize (Hlt eq_refl); lia.
+Qed.
+
+Lemma run_pot es s : (0 < n)%nat -> 1 <= f -> run n f true (init n) es = Some s ->
+  Z.of_nat (length es) + pot s <= 10 * Z.of_nat n + 3 + 3 * Z.of_nat (count_spur es).
+Proof.
+  intros Hn Hf. revert es s. apply run_ind.
+  - unfold pot. cbn [init d idx w dpot length count_spur filter]. rewrite sumw_repeat. cbn [wgt]. lia.
+  - intros es s e s' Hr IH HS. pose proof (Step_pot _ _ _ (reach_inv _ _ Hn Hf Hr) HS) as Hp.
+    rewrite app_length. unfold count_spur in *. rewrite filter_app, app_length. cbn [length filter].
+    destruct e; cbn [length]; lia.
+Qed.
+
+Lemma run_length_tight es s : (0 < n)%nat -> 1 <= f -> run n f true (init n) es = Some s ->
+  (length es <= 10 * n + 3 + 3 * count_spur es)%nat.
+Proof.
+  intros Hn Hf Hr. pose proof (run_pot _ _ Hn Hf Hr). pose proof (pot_nonneg _ (reach_inv _ _ Hn Hf Hr)). lia.
+Qed.
+
+Lemma run_length_bound_ es s : (0 < n)%nat -> 1 <= f -> run n f true (init n) es = Some s ->
+  (length es <= 12 * n + 8 + 3 * count_spur es)%nat.
+Proof. intros Hn Hf Hr. pose proof (run_length_tight _ _ Hn Hf Hr). lia. Qed.
+
+
+(* ---------------------------------------------------------------------------------------- *)
+(* C04: progress - drain the worker epilogues, then the dispatcher finds room *)
+
+Definition noext (es : list ev) : Prop := forallb (fun e => negb (is_external e)) es = true.
+Definition dfree (x : dpc) : bool := match x with DLock | DWait | DWoken => true | _ => false end.
+Definition startedp (x : wpc) : bool := wpc_eqb x WStart || wpc_eqb x WConn.
+
+Lemma wake_dfree x : dfree (wake x) = dfree x. Proof. destruct x; reflexivity. Qed.
+
+Lemma drain k : forall s, sume (w s) <= Z.of_nat k -> 1 <= f -> Inv s -> dfree (d s) = true ->
+  exists es s', noext es /\ run n f true s es = Some s' /\ Inv s' /\ idx s' = idx s /\
+    started s' = started s /\ dfree (d s') = true /\ sume (w s') = 0 /\ mtx s' = Free.
+Proof.
+  induction k as [|k IH]; intros s Hm Hf HI Hd; pose proof (sume_nonneg (w s)) as Hnn.
+  - assert (Hz : sume (w s) = 0) by lia.
+    exists [], s. split; [reflexivity|]. do 6 (split; [auto|]).
+    destruct (mtx s) eqn:Em; auto.
+    + apply (I_md _ HI) in Em. destruct (d s); discriminate.
+    + apply (I_mw _ HI) in Em. destruct Em as (x & Hx & Hw).
+      pose proof (sume_ge _ _ _ Hx). destruct x; cbn [wgt2] in *; try discriminate; lia.
+  - destruct (Z_le_gt_dec (sume (w s)) (Z.of_nat k)) as [Hle|Hgt]; [apply IH; auto|].
+    assert (Hstep : forall e s1, Step s e s1 -> is_external e = false -> idx s1 = idx s ->
+              started s1 = started s -> dfree (d s1) = true -> sume (w s1) <= Z.of_nat k ->
+              exists es s', noext es /\ run n f true s es = Some s' /\ Inv s' /\ idx s' = idx s /\
+                started s' = started s /\ dfree (d s') = true /\ sume (w s') = 0 /\ mtx s' = Free).
+    { intros e s1 HS He Hi Hst Hd1 Hm1.
+      destruct (IH s1 Hm1 Hf (Step_inv _ _ _ Hf HI HS) Hd1) as (es & s' & Hne & Hr & HI' & Hi' & Hst' & Hd' & Hz & Hfree).
+      exists (e :: es), s'. split; [|split; [|do 5 (split; [auto; congruence|]); auto]].
+      - unfold noext in *. cbn [forallb]. rewrite He, Hne. reflexivity.
+      - cbn [run]. rewrite (Step_step _ _ _ HS). auto. }
+    destruct (mtx s) eqn:Em.
+    + (* free: some worker is waiting for the mutex *)
+      destruct (sume_pos_ex (w s)) as (i & x & Hx & Hw); [lia|].
+      assert (Hnh : wholds x = false).
+      { destruct (wholds x) eqn:E; auto. assert (mtx s = ByW i) by (apply (I_mw _ HI); exists x; auto). congruence. }
+      destruct x; cbn [wgt2 wholds] in *; try lia; try discriminate.
+      apply (Hstep (ELockW i) _ (SLockW _ _ Hx Em)); cbn [idx d w]; auto.
+      * unfold started; cbn [w]. rewrite (cnt_upd _ _ _ _ _ Hx). cbn. lia.
+      * rewrite (sume_upd _ _ _ _ Hx). cbn [wgt2]. lia.
+    + apply (I_md _ HI) in Em. destruct (d s); discriminate.
+    + (* a worker holds the mutex: let it finish *)
+      apply (I_mw _ HI) in Em. destruct Em as (x & Hx & Hw). destruct x; try discriminate.
+      * apply (Hstep (ESignal i) _ (SSignal _ _ Hx)); cbn [idx d w]; auto.
+        -- unfold started; cbn [w]. rewrite (cnt_upd _ _ _ _ _ Hx). cbn. lia.
+        -- rewrite wake_dfree; auto.
+        -- rewrite (sume_upd _ _ _ _ Hx). cbn [wgt2]. lia.
+      * apply (Hstep (EUnlockW i) _ (SUnlockW _ _ Hx)); cbn [idx d w]; auto.
+        -- unfold started; cbn [w]. rewrite (cnt_upd _ _ _ _ _ Hx). cbn. lia.
+        -- rewrite (sume_upd _ _ _ _ Hx). cbn [wgt2]. lia.
+Qed.
+
+Lemma progress_free s : 1 <= f -> Inv s -> dfree (d s) = true -> started s < f -> (idx s < n)%nat ->
+  exists es', noext es' /\ exists s', run n f true s (es' ++ [ECreate (idx s)]) = Some s'.
+Proof.
+  intros Hf HI Hd Hst Hi.
+  destruct (drain (Z.to_nat (sume (w s))) s) as (es & s1 & Hne & Hr & HI1 & Hi1 & Hst1 & Hd1 & Hz & Hfree); auto.
+  { pose proof (sume_nonneg (w s)). lia. }
+  assert (Htc : tc s1 < f).
+  { rewrite (I_tc _ HI1). pose proof (sume_zero_live _ Hz) as Hl. change (cnt live (w s1) = started s1) in Hl. lia. }
+  assert (Hcr : forall e s2, Step s1 e s2 -> is_external e = false -> d s2 = DCheck -> idx s2 = idx s1 ->
+            tc s2 = tc s1 ->
+            exists es', noext es' /\ exists s', run n f true s (es' ++ [ECreate (idx s)]) = Some s').
+  { intros e s2 HS He Hd2 Hi2 Ht2. exists (es ++ [e]). split.
+    - unfold noext in *. rewrite forallb_app, Hne. cbn [forallb]. rewrite He. reflexivity.
+    - eexists. rewrite !run_app, Hr. cbn [run]. rewrite (Step_step _ _ _ HS).
+      rewrite <- Hi1, <- Hi2.
+      rewrite (Step_step _ _ _ (SCreate s2 Hd2 ltac:(lia) ltac:(lia))). reflexivity. }
+  destruct (d s1) eqn:Ed; try discriminate.
+  - apply (Hcr ELockD _ (SLockD1 _ Hfree Ed)); auto.
+  - pose proof (I_wait _ HI1 Ed). lia.
+  - apply (Hcr EWokenD _ (SWoken1 _ Hfree Ed)); auto.
+Qed.
+
+Lemma fanout_progress_ es s : (0 < n)%nat -> 1 <= f ->
+  run n f true (init n) es = Some s -> started s < f -> (idx s < n)%nat -> d s <> DUnlock ->
+  exists es', forallb (fun e => negb (is_external e)) es' = true /\
+              exists s', run n f true s (es' ++ [ECreate (idx s)]) = Some s'.
+Proof.
+  intros Hn Hf Hr Hst Hi Hd. pose proof (reach_inv _ _ Hn Hf Hr) as HI.
+  assert (Hl : inloop (d s) = true).
+  { destruct (inloop (d s)) eqn:E; auto. apply (I_ge _ HI) in E. lia. }
+  destruct (d s) eqn:Ed; try discriminate; try congruence;
+    try (apply progress_free; auto; rewrite Ed; reflexivity).
+  - (* at the room check *)
+    destruct (Z_le_gt_dec f (tc s)) as [Hle|Hgt].
+    + pose proof (SWait1 s Ed Hle) as HS.
+      destruct (progress_free _ Hf (Step_inv _ _ _ Hf HI HS)) as (es' & Hne & s' & Hr'); auto.
+      exists (EWaitD :: es'). split.
+      * cbn [forallb is_external negb andb]. exact Hne.
+      * exists s'. cbn [app run]. rewrite (Step_step _ _ _ HS). exact Hr'.
+    + exists []. split; [reflexivity|]. eexists. cbn [app run].
+      rewrite (Step_step _ _ _ (SCreate s Ed ltac:(lia) Hi)). reflexivity.
+  - exfalso. apply (I_go _ HI); auto.
+Qed.
+
+End P.
+
+(* ---------------------------------------------------------------------------------------- *)
+(* the statements of Props/Properties_C04.v and Props/Properties_C03.v *)
+
+Theorem fanout_bound : forall (n : nat) (f : Z) es s, (0 < n)%nat -> 1 <= f ->
+  run n f true (init n) es = Some s -> inflight s <= started s /\ started s <= f /\ 0 <= tc s <= f.
+Proof. exact fanout_bound_. Qed.
+
+Theorem fanout_if_refuted : exists es s, run 3 1 false (init 3) es = Some s /\ inflight s = 2.
+Proof.
+  exists [ELockD; ECreate 0; EUnlockD; EConn 0; ELockD; EWaitD; ESpur; EWokenD; ECreate 1; EUnlockD; EConn 1]%nat.
+  eexists. split; vm_compute; reflexivity.
+Qed.
+
+Theorem deadlock_free : forall (n : nat) (f : Z) es s, (0 < n)%nat -> 1 <= f ->
+  run n f true (init n) es = Some s -> d s <> DExited ->
+  exists e s', e <> ESpur /\ step n f true s e = Some s'.
+Proof. exact deadlock_free_. Qed.
+
+Theorem fanout0_parks : forall (n : nat), (0 < n)%nat ->
+  exists s, run n 0 true (init n) [ELockD; EWaitD] = Some s /\
+            forall e s', step n 0 true s e = Some s' -> e = ESpur.
+Proof.
+  intros n Hn. exists (mkst 0 0 Free DWait (repeat WNone n)). split; [reflexivity|].
+  intros e s' H. apply step_Step in H.
+  assert (Hw : forall i x, nth_error (repeat WNone n) i = Some x -> x = WNone).
+  { intros i x Hx. apply nth_error_In, repeat_spec in Hx. auto. }
+  inversion H; subst; cbn [d w] in *; try discriminate; auto;
+    match goal with H : nth_error _ _ = Some _ |- _ => apply Hw in H; discriminate end.
+Qed.
+
+Theorem started_at_most_once : forall (n : nat) (f : Z) es s i, (0 < n)%nat -> 1 <= f ->
+  run n f true (init n) es = Some s ->
+  (nev (ev_create i) es <= 1)%nat /\ (nev (ev_conn i) es <= nev (ev_create i) es)%nat /\
+  (nev (ev_destroy i) es <= nev (ev_conn i) es)%nat /\ (nev (ev_create i) es = 1%nat -> (i < n)%nat).
+Proof. exact started_at_most_once_. Qed.
+
+Theorem exit_after_all : forall (n : nat) (f : Z) es s, (0 < n)%nat -> 1 <= f ->
+  run n f true (init n) es = Some s -> In EExit es ->
+  tc s = 0 /\ forall i, (i < n)%nat ->
+    nth_error (w s) i = Some WExit /\ nev (ev_create i) es = 1%nat /\
+    nev (ev_conn i) es = 1%nat /\ nev (ev_destroy i) es = 1%nat.
+Proof. exact exit_after_all_. Qed.
+
+(* the bound 10 n + 3 + 3 * spurious of run_length_tight is attained *)
+Example run_length_tight_attained : exists s,
+  run 1 1 true (init 1) [ELockD; ECreate 0; EUnlockD; ELockD; EWaitD; EConn 0; EDestroy 0; ELockW 0;
+                          ESignal 0; EUnlockW 0; EWokenD; EUnlockD; EExit]%nat = Some s /\ d s = DExited.
+Proof. eexists. vm_compute. split; reflexivity. Qed.
+
+Theorem run_length_bound : forall (n : nat) (f : Z) es s, (0 < n)%nat -> 1 <= f ->
+  run n f true (init n) es = Some s -> (length es <= 12 * n + 8 + 3 * count_spur es)%nat.
+Proof. exact run_length_bound_. Qed.
+
+Theorem fanout_progress : forall (n : nat) (f : Z) es s, (0 < n)%nat -> 1 <= f ->
+  run n f true (init n) es = Some s -> started s < f -> (idx s < n)%nat -> d s <> DUnlock ->
+  exists es', forallb (fun e => negb (is_external e)) es' = true /\
+              exists s', run n f true s (es' ++ [ECreate (idx s)]) = Some s'.
+Proof. exact fanout_progress_. Qed.
